@@ -95,7 +95,13 @@ type Kernel struct {
 	nextFd  int
 	nGen    int
 
-	// below: touched by the root goroutine only
+	// free-running mode: requests are served on the caller's goroutine under amu
+	auto    bool
+	autoLat time.Duration
+	amu     sync.Mutex
+	flog []string
+
+	// below: touched by the root goroutine only (under amu in free-running mode)
 	reqLog   []*NLReq
 	rules    map[RuleKey]*KRule
 	version  string
@@ -163,6 +169,24 @@ func (k *Kernel) Send(c *nl.Conn, b []byte) error {
 		return syscall.EBADF
 	}
 	r := &NLReq{Conn: kc.name, c: c, Raw: append([]byte(nil), b...)}
+	if k.auto {
+		// free-running mode: the request is served on the caller's goroutine, after the
+		// configured latency, like a system call
+		k.mu.Unlock()
+		if err := k.decode(r); err != nil {
+			return syscall.EINVAL
+		}
+		if k.autoLat > 0 {
+			switch r.Op {
+			case "add-create", "add-update", "del", "multi", "report", "get":
+				time.Sleep(k.autoLat)
+			}
+		}
+		k.amu.Lock()
+		k.handle(r)
+		k.amu.Unlock()
+		return nil
+	}
 	k.pending = append(k.pending, r)
 	k.mu.Unlock()
 	k.sim.kickRoot()
@@ -457,7 +481,13 @@ func (k *Kernel) handle(r *NLReq) {
 		errno = int(syscall.EOPNOTSUPP)
 	}
 	r.Errno = errno
-	s.logEvent("nl %s %s %s flags=%#x errno=%d late=%v %s", r.Conn, r.Op, r.Key, r.Flags, errno, r.Late, canonAttrs(r.Attrs))
+	if k.auto {
+		if len(k.flog) < 4000 {
+			k.flog = append(k.flog, fmt.Sprintf("[free %v] nl %s %s %s flags=%#x errno=%d", s.since(), r.Conn, r.Op, r.Key, r.Flags, errno))
+		}
+	} else {
+		s.logEvent("nl %s %s %s flags=%#x errno=%d late=%v %s", r.Conn, r.Op, r.Key, r.Flags, errno, r.Late, canonAttrs(r.Attrs))
+	}
 
 	var out []byte
 	for _, d := range data {
